@@ -64,6 +64,40 @@ def build():
     return vlib.build_harness("c05_linear", SOURCES, libs=("core", "options"), defs=tuple(defs))
 
 
+PROBE_GROUPS = {1: "algorithm+container", 2: "optional", 3: "either", 4: "either::bind+join",
+                5: "variant+array+tuple+record", 6: "grid+tree"}
+
+
+def move_only_probe(ctx):
+    """compile harness/c05_probe.cpp once per group with the move-only element type; a group that does not
+    compile means some operation copies an element of an rvalue argument (or otherwise rejects move-only types)"""
+    def one(g):
+        flags = vlib.base_flags(san="none", opt="-O0", defs=("PROBE_GROUP=%d" % g,))
+        obj = os.path.join(vlib.BUILD, "obj", "probe_" + vlib.sha(vlib.REPO.encode())[:10], "c05_probe_%d.o" % g)
+        try:
+            vlib.compile_obj(os.path.join(vlib.HARNESS, "c05_probe.cpp"), obj, flags)
+            return g, None
+        except vlib.Infra as e:
+            return g, str(e)
+    res = vlib.parallel(one, sorted(PROBE_GROUPS), workers=6)
+    ok = []
+    for g, err in res:
+        if err is None:
+            ok.append(PROBE_GROUPS[g])
+            continue
+        if "error:" not in err:
+            raise vlib.Infra("move-only probe group %d: compiler failed without a diagnostic:\n%s" % (g, err[-1500:]))
+        first = re.search(r"error: [^\n]*", err).group(0)
+        where = [l.strip()[:220] for l in err.splitlines() if "/libs/" in l and ("required from" in l or "error:" in l)]
+        ctx.reject("C05:move-only-probe:%s" % PROBE_GROUPS[g],
+                   "the operations of group '%s' do not compile for rvalue arguments with a move-only element type: %s; %s"
+                   % (PROBE_GROUPS[g], first, " | ".join(where[-3:])),
+                   {"op": "move-only-probe", "group": g, "compiler_output_tail": err[-3000:]})
+    ctx.extra["move_only_probe_groups_compiled"] = ok
+    ctx.traces_validated += 0
+    return len(ok)
+
+
 def model_check(ctx):
     thorough = ctx.tier == "thorough"
     def mc(cfg):
@@ -171,6 +205,7 @@ def run(ctx):
     model_check(ctx)
     binary = build()
     selftest(ctx, binary)
+    move_only_probe(ctx)
     path = os.path.join(ctx.workdir, "events.ndjson")
     rc, out = vlib.run_harness(binary, ["record", path, ctx.seed, ctx.tier], timeout=1500)
     ni = sorted(set(re.findall(r"NOT-INSTANTIABLE (.*)", out)))
@@ -203,6 +238,13 @@ def run(ctx):
 
 def replay(ctx, payload):
     pl = payload["payload"]
+    if pl.get("op") == "move-only-probe":
+        move_only_probe(ctx)
+        ctx.count_class("probe")
+        ctx.count_class("probe2")
+        ctx.evaluations += len(PROBE_GROUPS)
+        ctx.rule = "replay: the move-only compile-time probe"
+        return
     binary = build()
     path = os.path.join(ctx.workdir, "replay.ndjson")
     seed = pl.get("seed", 1)
